@@ -174,6 +174,8 @@ contract(M + "SymbolTables.remove",
     raises={"SymbolTableError": {"unchanged": "self._symbol_tables == old(self._symbol_tables) and self._current_scope == old(self._current_scope) and scope_stack == old(scope_stack)",
                                  "children_kept": "unchanged_except('_children', None)",
                                  "only_when": "name.lower() not in self._symbol_tables or self._current_scope is not None",
+                                 # C06: cleaning up a nested scoping unit (a child of the current scope) never fails
+                                 "never_for_a_child_of_the_current_scope": "self._current_scope is None or first_named(old(self._current_scope._children), name.lower(), 0) == -1",
                                  "rep": "REP(self)"}},
-    serves=["C09", "C16"],
+    serves=["C06", "C09", "C16"],
 )
